@@ -40,6 +40,8 @@ class Model:
         self.cats = set()
         for key, value in config.items():
             cat, scheme, opt = split_key(key)
+            if scheme is None and cat is None and opt == "vary_rounds":
+                scheme = "all"  # documented global setting: same as all__vary_rounds
             if scheme is None:
                 if opt == "schemes":
                     if cat:
@@ -53,6 +55,8 @@ class Model:
                         self.cats.add(cat)
                 elif opt == "truncate_error":
                     self.ctx[cat, opt] = value
+                    if cat is None:
+                        self.opts.setdefault(("all", None), {})[opt] = value  # global setting handed to every scheme that knows it
                 else:
                     raise ConfigError(f"unknown context option {opt}")
             else:
